@@ -148,6 +148,12 @@ def tr_mom(n):
     return {"module": "Trace_Moments", "cfg": "Trace_Moments.cfg", "family": "moments", "args": {"n": n}, "timeout": 3600}
 
 
+def tr_pairs(n):
+    """the same for Covariance / WeightedMeanWithError / WeightedMean: add, collect, extend, merge, clone,
+    serde histories over arbitrary f64 pairs (Trace_Pairs.tla)"""
+    return {"module": "Trace_Pairs", "cfg": "Trace_Pairs.cfg", "family": "pairs", "args": {"n": n}, "timeout": 3600}
+
+
 # soundness of the unbounded arithmetic: TLA+ definitions vs TLC integers, Java overrides vs TLA+
 # definitions, power-sum statistics vs Exact.tla
 MC_BIG = {"module": "MC_Big", "cfg": "MC_Big.cfg", "workers": 1}
@@ -249,7 +255,7 @@ PROPS = {
         "mc": [MC_BIG, MC_BIGSTATS, MC_W1, MC_C1, MC_SEQ, MC_MERGE],
         "replay": [GEN_INGEST, gen_q("small", "E0"), gen_mm("hist", depth=("3", "3")), gen_pair("Weighted", "seq", "E0:W0,E5:W2,E10:W0,E10:W1,E0:W3", maxlen=("4", "5")), gen_pair("Covariance", "seq", "E0:E0,E3:E5,E10:E10", maxlen=("4", "5")), gen_seq(ALLM, E05 + ",E10"), gen_hist(ALLM, "E0")],
         "direct": [{"cmd": "direct", "family": "rayontiny", "args": {}}, long_job("Mean,Variance,Skewness,Kurtosis,Moments4,M6,M10", E05 + ",E10", max_n="10000")],
-        "trace": [tr_mom(("200", "1000"))],
+        "trace": [tr_pairs(("150", "800")), tr_mom(("200", "1000"))],
         "rule": "every accessor of every type at n = 0..4 and on every constant sequence in the enumerated set, sentinel class "
                 "or exact value required",
         "bounds": {"quick": "L <= 5", "thorough": "L <= 7"},
@@ -263,7 +269,7 @@ PROPS = {
         "replay": [GEN_INGEST, gen_h("hist", 2, depth=("3", "4")), gen_h("hist", 3), gen_pair("Weighted", "tree", "E0:W0,E6:W1,E7:W2,E8:W0,E9:W1,EM1:W0,E14:W1,E7:W1,E14:W0", maxlen=("3", "4")), gen_pair("Weighted", "seq", "EM1:W0,EM1:W2", maxlen=("4", "5")), gen_pair("Covariance", "tree", "E6:E7,E8:E9,E9:E6,EM1:EM1,E14:E14", maxlen=("3", "4")), gen_seq(ALLM, E09 + ",EM1"), gen_tree(ALLM, "E0,E4,E6,E7,E8,E9,EM1,E14"), gen_hist(ALLM, "E6,E7,E8,E9,EM1")],
         "direct": [long_job("Mean,Variance,Skewness,Kurtosis,Moments4,M6,M10", "E0,E4,E6,E7,E8,E9,E10"), HIST_BIG],
         "apalache": [{"module": "Ind_Variance", "skip": (True, False)}, {"module": "Ind_EffLen", "skip": (True, False)}],
-        "trace": [tr_mom(("250", "2500")), tr_h(3, n=("5000", "20000"))],
+        "trace": [tr_pairs(("200", "2000")), tr_mom(("250", "2500")), tr_h(3, n=("5000", "20000"))],
         "rule": "all behaviours of C01/C02 replayed under embeddings without any conditioning bound (one-ulp spreads at 2^52, "
                 "denormals, 1e149, offsets 1e15 spreads); sign and range conditions on every observation",
         "bounds": {"quick": "L <= 5; tree L <= 4", "thorough": "L <= 7; tree L <= 5"},
@@ -283,10 +289,10 @@ PROPS = {
         "assumptions": ["serde_json with float_roundtrip is lossless for finite f64"],
     },
     "C08": {
-        "level_text": 'Weighted.tla (West update, weighted merge, embedded variance): WeightedIsDef, ErrorIsDef, ZeroWeightInvisible, EffectiveLenRange model-checked; every (value, weight) sequence / chunking / merge tree replayed on both weighted types incl. very unequal weights (1 : 4096 uniformly scaled, and 2^-19 : 2^19 inside one stream under the weight map WX, whose expected values come from the harness evaluation of the specification definitions, cross-checked against the specification on every generated line)',
-        "technique": 'TLC model checking of Weighted.tla + replay of every generated history; Apalache inductive invariant for West\'s update and the weighted merge (thorough)',
+        "level_text": 'Weighted.tla (West update, weighted merge, embedded variance): WeightedIsDef, ErrorIsDef, ZeroWeightInvisible, EffectiveLenRange model-checked; every (value, weight) sequence / chunking / merge tree replayed on both weighted types incl. very unequal weights (1 : 4096 uniformly scaled, and 2^-19 : 2^19 inside one stream under the weight map WX, whose expected values come from the harness evaluation of the specification definitions, cross-checked against the specification on every generated line); add / collect / extend / merge / clone / serde histories over arbitrary full-mantissa f64 pairs recorded from the real estimators, every number logged as the exact dyadic rational it is, validated by TLC against Trace_Pairs.tla (exact sums in unbounded rational arithmetic, envelope decided as an exact rational inequality)',
+        "technique": 'TLC model checking of Weighted.tla + replay of every generated history; Apalache inductive invariant for West\'s update and the weighted merge (thorough) + TLC trace validation of recorded arbitrary-f64 histories in exact unbounded arithmetic (Trace_Pairs.tla)',
         "title": "weighted mean and its error equal the exact weighted statistics",
-        "mc": [MC_W, MC_W1, MC_WW],
+        "mc": [MC_BIG, MC_BIGSTATS, MC_W, MC_W1, MC_WW],
         "apalache": [{"module": "Ind_Weighted", "skip": (True, False)}],
         "replay": [GEN_INGEST, gen_pair("Weighted", "seq", WE + ",E0:WX,E5:WX", maxlen=("4", "5")),
                    gen_pair("Weighted", "tree", "E0:W0,E3:W1,E5:W2,E0:WX", maxlen=("3", "4")),
@@ -294,6 +300,7 @@ PROPS = {
                    gen_pair("Weighted", "seq", "E0:W0,E3:W1,E0:WX", maxlen=("5", "6"), wide=True),
                    gen_pair("Weighted", "tree", "E0:W0,E5:W2", maxlen=("4", "5"), wide=True),
                    gen_pair("Weighted", "hist", "E0:W0,E0:WX", maxlen="3", depth=("4", "5"), wide=True)],
+        "trace": [tr_pairs(("250", "2500"))],
         "rule": "every sequence of (value, weight) pairs over {-1,0,2} x {0,1,3} up to the length bound (zero weights at every "
                 "position, first included), every chunking into <= 3 chunks and merge tree, arbitrary histories; "
                 "WeightedMean and WeightedMeanWithError; value embeddings x weight scales 2^-19, 1, 2^18; the same again over "
@@ -302,14 +309,15 @@ PROPS = {
         "assumptions": ["as C01"],
     },
     "C09": {
-        "level_text": 'Covariance.tla with a swapped twin: CovIsDef, CauchySchwarz, SwapSymmetric model-checked; every pair sequence / merge tree replayed incl. a real twin object fed swapped pairs; Apalache inductive invariant for the co-moment (thorough)',
-        "technique": 'TLC model checking of Covariance.tla + replay incl. swapped twin; Apalache inductive invariant',
+        "level_text": 'Covariance.tla with a swapped twin: CovIsDef, CauchySchwarz, SwapSymmetric model-checked; every pair sequence / merge tree replayed incl. a real twin object fed swapped pairs; Apalache inductive invariant for the co-moment (thorough); add / collect / extend / merge / clone / serde histories over arbitrary full-mantissa f64 pairs recorded from the real estimators, every number logged as the exact dyadic rational it is, validated by TLC against Trace_Pairs.tla (exact sums in unbounded rational arithmetic, envelope decided as an exact rational inequality)',
+        "technique": 'TLC model checking of Covariance.tla + replay incl. swapped twin; Apalache inductive invariant + TLC trace validation of recorded arbitrary-f64 histories in exact unbounded arithmetic (Trace_Pairs.tla)',
         "title": "covariance reports exact means, variances, covariance and Pearson correlation",
-        "mc": [MC_C, MC_C1],
+        "mc": [MC_BIG, MC_BIGSTATS, MC_C, MC_C1],
         "replay": [GEN_INGEST, gen_pair("Covariance", "seq", CE, maxlen=("4", "5")),
                    gen_pair("Covariance", "tree", "E0:E0,E3:E5,E5:E3", maxlen=("3", "4")),
                    gen_pair("Covariance", "hist", "E0:E0,E3:E5", depth=("4", "4"))],
         "apalache": [{"module": "Ind_Covariance", "skip": (True, False)}],
+        "trace": [tr_pairs(("250", "2500"))],
         "rule": "every sequence of pairs over {-1,0,2}^2 up to the length bound (collinear, anti-collinear, partially correlated), "
                 "every chunking and merge tree, arbitrary histories; independent embeddings of x and y; a twin object fed the "
                 "swapped pairs is checked against the swapped specification values",
